@@ -638,7 +638,10 @@ def run(ctx):
     # All TLC runs of legs 1-3 are independent: run them concurrently (at most 8 JVMs at a time).
     strict = 'INVARIANT SafeNoExec\nINVARIANT InferPlainExact\nINVARIANT NamesSupersetDir'
     nproc = 12
-    rems = [ctx.seed % nproc] if quick else list(range(nproc))
+    # quick: one residue class of the case space (seeded); thorough: 8 of the 12 (rotating with the seed),
+    # C13_FULL=1: all of them (76k cases; ~5 min on an idle 16-core machine)
+    nres = 1 if quick else (12 if os.environ.get('C13_FULL') else 8)
+    rems = sorted((ctx.seed + i) % nproc for i in range(nres))
     jobs = {'mc': (write_cfg(ctx, 'mc.cfg', maxpath, 1, 0, fixed, body), dict(workers=8, coverage=True)),
             'fixed': (write_cfg(ctx, 'mc_fixed.cfg', maxpath, 1, 0, ALLDEV, strict + '\n' + body), dict(workers=8))}
     for inv in ('SafeNoExec', 'InferPlainExact', 'NamesSupersetDir'):
@@ -690,7 +693,7 @@ def run(ctx):
     for x in cs:
         x['c']['protos'] = sorted(x['c']['protos'])
     ctx.log('emitted %d cases' % len(cs))
-    if len(cs) < (3000 if quick else 60000):
+    if len(cs) < (3000 if quick else 40000):
         raise MachineryError('too few cases emitted: %d' % len(cs))
     # make sure the TLC counterexamples are among the replayed cases
     have = [x['c'] for x in cs]
@@ -722,7 +725,7 @@ def run(ctx):
 
     # 4. random object graphs (code -> spec)
     ctx.log('random object graphs')
-    ng, nq = (100, 12) if quick else (1500, 16)
+    ng, nq = (100, 12) if quick else (1000, 16)
     recs = jutil.pmap(random_graph, [(ctx.seed * 100003 + i, nq) for i in range(ng)], chunksize=4)
     jutil.check_worker_errors(recs)
     blocked = {}
@@ -735,14 +738,14 @@ def run(ctx):
             rsrc.append(r)
             ctx.count('random_graph_queries', len(r['events']))
     ctx.coverage['random_graph_blocked_by_internal_errors'] = blocked
-    if sum(len(t) for t in rtraces) < (600 if quick else 15000):
+    if sum(len(t) for t in rtraces) < (600 if quick else 9000):
         raise MachineryError('too few random-graph events')
 
     # TLC judges all breaching replay events + a seeded sample of the others (single worker)
     idx = [i for i, r in enumerate(trace_src) if is_breach(r)]
     rest = [i for i, r in enumerate(trace_src) if not is_breach(r)]
     ctx.rng.shuffle(rest)
-    idx = sorted(idx + rest[:1500 if quick else 20000])
+    idx = sorted(idx + rest[:1500 if quick else 12000])
     traces = [traces[i] for i in idx]
     trace_src = [trace_src[i] for i in idx]
     all_traces = traces + rtraces
